@@ -281,10 +281,16 @@ def explore_workspace(srv, base, wid, rnd, tags_out, nq, fixed=None):
         for (l0, c0, c1, s, kind) in d.tokens:
             words = WORD.findall(s) if kind == "string" else [s]
             if any(w in fixture_names for w in words):
-                cands.append((l0, c0, c1, s, kind, [w for w in words if w in fixture_names]))
+                # every word of a string literal may be a (possibly undefined) fixture name with its own usage
+                cands.append((l0, c0, c1, s, kind, list(words) if kind == "string" else [w for w in words if w in fixture_names]))
         rnd.shuffle(cands)
         for (l0, c0, c1, s, kind, words) in (cands if fixed is not None else cands[:nq]):
             c = rnd.randint(c0 + (1 if kind == "string" and c1 - c0 > 2 else 0), max(c0, c1 - 1))
+            if kind == "string":
+                # the word under the cursor decides which name the answers are about
+                under = [m.group(0) for m in WORD.finditer(s) if m.start() <= c - c0 < m.end()]
+                if under and "\\" not in s and s.count('"') + s.count("'") <= 2:
+                    words = under
             names = col.names_for(words)
             q = {"query": {"path": d.path, "line": l0, "character": c, "token": s}}
             for loc in as_list(srv.definition(d.path, l0, c)):
